@@ -1,7 +1,7 @@
 """C16 — moto_nl numbers exactly the unnumbered lines, consistently with their neighbours"""
 import re
 
-from framework import CaseResult, text_points, points_text
+from framework import scale, CaseResult, text_points, points_text
 from props.textcommon import run_text_tool, model_inputs, out_lines, input_lines
 
 GEN_FILES = ["GenText"]
@@ -79,7 +79,7 @@ BOUND = [1, 2, 9, 10, 11, 99, 100, 101, 999, 1000, 9999, 10000]
 
 
 def gen_cases(rng, tier):
-    n = 500 if tier == "quick" else 8000
+    n = scale(tier, 500, 8000)
     cases = []
     hist = {"random": 0, "defaults": 0}
     for _ in range(n):
